@@ -21,7 +21,10 @@
 (*  key    kK right key  kW well-formed wrong key  kShort(23) kBadChar     *)
 (*         kNoPad(24, no '=') kOnePad(24, one '=') kLong(28)               *)
 (*         kHigh (24 characters, one with the high bit set)                *)
-(*  modes  c2 c5 c100 c256 c260 cabc   h1 h3 h256                          *)
+(*  modes  c0 c2 c4 (valid, incl. both ends of the range)  c5 c100 c256    *)
+(*         c260 cNeg (-1)  cabc cEmpty (not numbers)   h0 h1 h2  h3 h256   *)
+(*         hNeg                                                            *)
+(*  empty  iEmptyArg oEmptyArg kEmpty: the option with "" as its value     *)
 (*  other  x unknown option   stray positional argument                    *)
 (***************************************************************************)
 EXTENDS Naturals, Sequences, FiniteSets
@@ -30,7 +33,8 @@ ModeTok == {"e", "d", "v", "V", "h", "le", "ld", "lv", "en", "dn", "vn"}
 ModeOf(t) == CASE t \in {"e", "le", "en"} -> "e" [] t \in {"d", "ld", "dn"} -> "d" [] t \in {"v", "lv", "vn"} -> "v"
                [] t = "V" -> "V" [] t = "h" -> "h"
 Tokens == ModeTok \cup {"n", "iF", "iE", "iMissing", "iLong", "iLen122", "iLen123", "iProc", "iNoArg", "iBadC", "iBadH", "iTam", "iEmpty", "oO", "oBad", "kK", "kW", "kShort", "kBadChar",
-                        "kNoPad", "kOnePad", "kLong", "kHigh", "c2", "c5", "c100", "c256", "c260", "cabc", "h1", "h3", "h256", "x", "stray"}
+                        "kNoPad", "kOnePad", "kLong", "kHigh", "kEmpty", "c0", "c2", "c4", "c5", "c100", "c256", "c260", "cNeg", "cabc", "cEmpty",
+                        "h0", "h1", "h2", "h3", "h256", "hNeg", "iEmptyArg", "oEmptyArg", "x", "stray"}
 S0 == [mode |-> "u", ct |-> FALSE, ht |-> FALSE, in |-> "none", out |-> "none", key |-> "none", quiet |-> FALSE, err |-> FALSE, may |-> FALSE]
 
 \* one token; the first offending token ends the parse (err)
@@ -45,14 +49,15 @@ Step(s, t) ==
   ELSE IF t = "iLen122" THEN [s EXCEPT !.in = "F"]                      \* the longest path whose default output name fits
   ELSE IF t = "iProc" THEN [s EXCEPT !.in = "R"]
   ELSE IF t \in {"iBadC", "iBadH", "iTam", "iEmpty"} THEN [s EXCEPT !.in = "X"]
-  ELSE IF t \in {"iMissing", "iNoArg", "oBad", "kShort", "kBadChar", "kNoPad", "kOnePad", "kLong", "kHigh", "c5", "c100", "c256", "c260", "h3", "h256", "x"}
+  ELSE IF t \in {"iMissing", "iNoArg", "iEmptyArg", "oBad", "oEmptyArg", "kShort", "kBadChar", "kNoPad", "kOnePad", "kLong", "kHigh", "kEmpty",
+                  "c5", "c100", "c256", "c260", "cNeg", "h3", "h256", "hNeg", "x"}
        THEN [s EXCEPT !.err = TRUE]
   ELSE IF t = "oO" THEN [s EXCEPT !.out = "O"]
   ELSE IF t = "kK" THEN [s EXCEPT !.key = "K"]
   ELSE IF t = "kW" THEN [s EXCEPT !.key = "W"]
-  ELSE IF t = "c2" THEN (IF s.ct THEN [s EXCEPT !.err = TRUE] ELSE [s EXCEPT !.ct = TRUE])
-  ELSE IF t = "cabc" THEN (IF s.ct THEN [s EXCEPT !.err = TRUE] ELSE [s EXCEPT !.ct = TRUE, !.may = TRUE])   \* not a number
-  ELSE IF t = "h1" THEN (IF s.ht THEN [s EXCEPT !.err = TRUE] ELSE [s EXCEPT !.ht = TRUE])
+  ELSE IF t \in {"c0", "c2", "c4"} THEN (IF s.ct THEN [s EXCEPT !.err = TRUE] ELSE [s EXCEPT !.ct = TRUE])
+  ELSE IF t \in {"cabc", "cEmpty"} THEN (IF s.ct THEN [s EXCEPT !.err = TRUE] ELSE [s EXCEPT !.ct = TRUE, !.may = TRUE])   \* not a number
+  ELSE IF t \in {"h0", "h1", "h2"} THEN (IF s.ht THEN [s EXCEPT !.err = TRUE] ELSE [s EXCEPT !.ht = TRUE])
   ELSE IF t = "stray" THEN [s EXCEPT !.may = TRUE]
   ELSE [s EXCEPT !.err = TRUE]
 
@@ -91,6 +96,6 @@ Seqs(n) == UNION { [1..k -> Tokens] : k \in 0..n }
 NoModeFails == \A ts \in Seqs(2) : (\A i \in 1..Len(ts) : ts[i] \notin ModeTok) => Class(ts) = "FAIL"
 TwoModesFail == \A a, b \in ModeTok : Class(<<a, b>>) = "FAIL" /\ Class(<<a, "iF", b>>) = "FAIL"
 NeedKey == \A ts \in Seqs(3) : (ModeFinal(ts) \in {"d", "v"} /\ \A i \in 1..Len(ts) : ts[i] \notin {"kK", "kW"}) => Class(ts) = "FAIL"
-BadValueFails == \A bad \in {"kShort", "kBadChar", "kNoPad", "kOnePad", "kLong", "c5", "c256", "h3", "h256", "x", "oBad", "iMissing"} :
+BadValueFails == \A bad \in {"kShort", "kBadChar", "kNoPad", "kOnePad", "kLong", "c5", "c256", "cNeg", "h3", "h256", "hNeg", "x", "oBad", "iMissing", "kEmpty", "iEmptyArg", "oEmptyArg"} :
                    \A ts \in Seqs(2) : Class(ts \o <<bad>>) = "FAIL"
 =============================================================================
